@@ -43,7 +43,10 @@ PROPS = {
     "C07": dict(functions=[S + "hybrid_rush_larsen", S + "generalized_rush_larsen", S + "explicit_euler", S + "get_scheme",
                            U + "add_schemes", B + "scheme"], lemmas=[]),
     "C08": dict(functions=["gotranx.transformer.TreeToODE.ode", "gotranx.transformer._same_definition", M + "sort_assignments",
-                           X + "build_expression.expr2symbols"], lemmas=L.C08L),
+                           X + "build_expression.expr2symbols", M + "check_components"]
+                + ["gotranx.ode_component.BaseComponent." + n for n in ("is_complete", "states_with_derivatives", "states_without_derivatives", "find_state")]
+                + ["gotranx.ode_component.Component._handle_assignments", "gotranx.atoms.Assignment.to_state_derivative",
+                   "gotranx.atoms.Assignment.to_intermediate"], lemmas=L.C08L),
     "C09": dict(functions=[M + "sort_assignments", O + "sorted_assignments", O + "missing_variables", S + "get_scheme"] + ACCESSORS,
                 lemmas=[]),
     "C10": dict(functions=["gotranx.transformer.TreeToODE.ode", O + "__eq__", O + "sorted_assignments", M + "sort_assignments"] + ACCESSORS, lemmas=[]),
